@@ -107,5 +107,214 @@ theorem covers_bag {wk : K} {chans : List (List (Found K))} {k : K} :
       · exact .inl (hasK_flat.mpr ⟨ch, hch, h⟩)
       · exact .inr (hasK_flat.mpr ⟨ch, hch, h⟩)
 
+theorem not_mentioned_sub {chans : List (List (Found K))} {k : K} (h : k ∉ mentioned (chans.flatMap id))
+    {ch : List (Found K)} (hch : ch ∈ chans) : k ∉ mentioned ch := by
+  intro hm
+  apply h
+  rcases mem_mentioned.mp hm with h1 | h1
+  · exact mem_mentioned.mpr (.inl (exclK_flat.mpr ⟨ch, hch, h1⟩))
+  · exact mem_mentioned.mpr (.inr (noK_flat.mpr ⟨ch, hch, h1⟩))
+
+theorem noK_unionR {chans : List (List (Found K))} {k : K} : noK (unionR chans) k = false := by
+  apply bool_false_of_not
+  intro h
+  obtain ⟨f, hf, _, hs⟩ := noK_iff.mp h
+  rw [(mem_unionR hf).1] at hs
+  cases hs
+
+theorem exclK_unionR_sub {chans : List (List (Found K))} {k : K} (h : exclK (unionR chans) k = true) :
+    exclK (chans.flatMap id) k = true := by
+  obtain ⟨f, hf, hk⟩ := exclK_iff.mp h
+  obtain ⟨ch, hch, g, hg, hkg⟩ := (mem_unionR hf).2.2 k hk
+  exact exclK_flat.mpr ⟨ch, hch, exclK_iff.mpr ⟨g, hg, hkg⟩⟩
+
+theorem two_notes_nil {a b : Bool} {s t : String} (h : noteIf a s ++ noteIf b t = []) : a = false ∧ b = false := by
+  obtain ⟨h1, h2⟩ := List.append_eq_nil_iff.mp h
+  exact ⟨noteIf_nil h1, noteIf_nil h2⟩
+
+/-- **`expandUnion`** -/
+theorem covers_unionR {wk : K} {chans : List (List (Found K))} (hn : unionNotes wk chans = []) {k : K} :
+    covers wk (unionR chans) k = true ↔ ∃ ch ∈ chans, covers wk ch k = true := by
+  obtain ⟨hn1, hn2⟩ := two_notes_nil hn
+  by_cases hm : k ∈ mentioned (chans.flatMap id)
+  · have h1 := List.any_eq_false.mp hn1 k hm
+    have h2 := List.any_eq_false.mp hn2 k hm
+    cases hc : covers wk (unionR chans) k <;> cases ha : chans.any (fun ch => covers wk ch k) <;>
+      simp only [hc, ha, Bool.not_true, Bool.not_false, Bool.and_self, Bool.and_true, Bool.and_false] at h1 h2
+    · constructor
+      · intro h; cases h
+      · rintro ⟨ch, hch, h⟩
+        have := List.any_eq_false.mp ha ch hch
+        simp only [h] at this
+        exact absurd trivial this
+    · exact absurd trivial h2
+    · exact absurd trivial h1
+    · constructor
+      · intro _
+        obtain ⟨ch, hch, h⟩ := List.any_eq_true.mp ha
+        exact ⟨ch, hch, h⟩
+      · intro _; rfl
+  · have hex : exclK (unionR chans) k = false :=
+      bool_false_of_not (fun h => hm (mem_mentioned.mpr (.inl (exclK_unionR_sub h))))
+    rw [covers_iff, noK_unionR, hex]
+    simp only [and_self, and_true]
+    rw [hasK_unionR, hasK_unionR]
+    constructor
+    · rintro (⟨ch, hch, h⟩ | ⟨ch, hch, h⟩)
+      · exact ⟨ch, hch, (covers_unmentioned (not_mentioned_sub hm hch)).mpr (.inl h)⟩
+      · exact ⟨ch, hch, (covers_unmentioned (not_mentioned_sub hm hch)).mpr (.inr h)⟩
+    · rintro ⟨ch, hch, h⟩
+      rcases (covers_unmentioned (not_mentioned_sub hm hch)).mp h with h | h
+      · exact .inl ⟨ch, hch, h⟩
+      · exact .inr ⟨ch, hch, h⟩
+
+/-! ### `expandIntersection`: the counting comparison -/
+
+theorem count_add_le {α : Type} (p q : α → Bool) (hd : ∀ x, ¬ (p x = true ∧ q x = true)) (l : List α) :
+    (l.filter p).length + (l.filter q).length ≤ l.length := by
+  induction l with
+  | nil => simp
+  | cons a l ih =>
+    simp only [List.filter_cons, List.length_cons]
+    cases hpa : p a <;> cases hqa : q a <;> simp only [Bool.false_eq_true, if_false, if_true, List.length_cons]
+    · omega
+    · omega
+    · omega
+    · exact absurd ⟨hpa, hqa⟩ (hd a)
+
+theorem count_add {α : Type} (p q : α → Bool) (hd : ∀ x, ¬ (p x = true ∧ q x = true)) (l : List α) :
+    (l.filter p).length + (l.filter q).length = l.length ↔ ∀ x ∈ l, p x = true ∨ q x = true := by
+  induction l with
+  | nil => simp
+  | cons a l ih =>
+    have hpq := count_add_le p q hd l
+    simp only [List.filter_cons, List.length_cons, List.mem_cons, forall_eq_or_imp]
+    cases hpa : p a <;> cases hqa : q a <;> simp only [Bool.false_eq_true, if_false, if_true, List.length_cons]
+    · constructor
+      · intro h; omega
+      · rintro ⟨h, _⟩; simp at h
+    · rw [← ih]; constructor
+      · intro h; exact ⟨.inr trivial, by omega⟩
+      · rintro ⟨_, h⟩; omega
+    · rw [← ih]; constructor
+      · intro h; exact ⟨.inl trivial, by omega⟩
+      · rintro ⟨_, h⟩; omega
+    · exact absurd ⟨hpa, hqa⟩ (hd a)
+
+/-- `count + wildcardCount == len(childOperands)` says: every operand found the key or the wildcard -/
+theorem interCount_eq {wk : K} {chans : List (List (Found K))} {x : K} :
+    interCount wk chans x + wildcardCount wk chans = chans.length ↔
+      ∀ ch ∈ chans, hasK ch x = true ∨ hasK ch wk = true := by
+  unfold interCount wildcardCount
+  rw [count_add]
+  · constructor
+    · intro h ch hch
+      rcases h ch hch with h | h
+      · simp only [Bool.and_eq_true, List.contains_eq_mem, decide_eq_true_eq] at h
+        exact .inl (mem_hasKeys.mp h.1)
+      · simp only [List.contains_eq_mem, decide_eq_true_eq] at h
+        exact .inr (mem_hasKeys.mp h)
+    · intro h ch hch
+      by_cases hw : wk ∈ hasKeys ch
+      · right; simpa using hw
+      · left
+        rcases h ch hch with h | h
+        · simp only [Bool.and_eq_true, List.contains_eq_mem, decide_eq_true_eq, Bool.not_eq_true',
+            decide_eq_false_iff_not]
+          exact ⟨mem_hasKeys.mpr h, hw⟩
+        · exact absurd (mem_hasKeys.mpr h) hw
+  · intro ch ⟨h1, h2⟩
+    simp only [Bool.and_eq_true, Bool.not_eq_true'] at h1
+    rw [h2] at h1
+    exact absurd h1.2 (by simp)
+
+theorem hasK_interR {wk : K} {chans : List (List (Found K))} {x : K} :
+    hasK (interR wk chans) x = true ↔
+      (∃ ch ∈ chans, hasK ch x = true) ∧ exclK (chans.flatMap id) x = false ∧
+      ∀ ch ∈ chans, hasK ch x = true ∨ hasK ch wk = true := by
+  constructor
+  · intro h
+    obtain ⟨f, hf, hu, _⟩ := hasK_iff.mp h
+    obtain ⟨_, h1, _, h3, h4⟩ := mem_interR hf
+    rw [hu] at h1 h3 h4
+    refine ⟨h1, bool_false_of_not (fun he => h4 ?_), interCount_eq.mp h3⟩
+    obtain ⟨g, hg, hkg⟩ := exclK_iff.mp he
+    obtain ⟨ch, hch, hgch⟩ := List.mem_flatMap.mp hg
+    exact ⟨ch, hch, g, hgch, hkg⟩
+  · rintro ⟨⟨ch, hch, h1⟩, h2, h3⟩
+    apply hasK_iff.mpr
+    unfold interR
+    simp only [List.mem_map]
+    refine ⟨_, ⟨x, List.mem_filter.mpr ⟨?_, ?_⟩, rfl⟩, rfl, rfl⟩
+    · exact mem_dedup.mpr (List.mem_flatMap.mpr ⟨ch, hch, mem_hasKeys.mpr h1⟩)
+    · simp only [Bool.and_eq_true, Bool.not_eq_true', List.contains_eq_mem, decide_eq_false_iff_not,
+        decide_eq_true_eq]
+      refine ⟨?_, interCount_eq.mpr h3⟩
+      intro hm
+      obtain ⟨g, hg, hkg⟩ := List.mem_flatMap.mp (mem_dedup.mp hm)
+      rw [exclK_iff.mpr ⟨g, hg, hkg⟩] at h2
+      cases h2
+
+theorem noK_interR {wk : K} {chans : List (List (Found K))} {k : K} : noK (interR wk chans) k = false := by
+  apply bool_false_of_not
+  intro h
+  obtain ⟨f, hf, _, hs⟩ := noK_iff.mp h
+  rw [(mem_interR hf).1] at hs
+  cases hs
+
+theorem exclK_interR_sub {wk : K} {chans : List (List (Found K))} {k : K} (h : exclK (interR wk chans) k = true) :
+    exclK (chans.flatMap id) k = true := by
+  obtain ⟨f, hf, hk⟩ := exclK_iff.mp h
+  obtain ⟨ch, hch, g, hg, hkg⟩ := (mem_interR hf).2.2.1 k hk
+  exact exclK_flat.mpr ⟨ch, hch, exclK_iff.mpr ⟨g, hg, hkg⟩⟩
+
+/-- **`expandIntersection`**, with the wildcard correction.  `hwk`: the wildcard is in no `excludedUsers` list. -/
+theorem covers_interR {wk : K} {chans : List (List (Found K))} (hne : chans ≠ [])
+    (hwk : exclK (chans.flatMap id) wk = false) (hn : interNotes wk chans = []) {k : K} :
+    covers wk (interR wk chans) k = true ↔ ∀ ch ∈ chans, covers wk ch k = true := by
+  obtain ⟨hn1, hn2⟩ := two_notes_nil hn
+  by_cases hm : k ∈ mentioned (chans.flatMap id)
+  · have h1 := List.any_eq_false.mp hn1 k hm
+    have h2 := List.any_eq_false.mp hn2 k hm
+    cases hc : covers wk (interR wk chans) k <;> cases ha : chans.all (fun ch => covers wk ch k) <;>
+      simp only [hc, ha, Bool.not_true, Bool.not_false, Bool.and_self, Bool.and_true, Bool.and_false] at h1 h2
+    · constructor
+      · intro h; cases h
+      · intro h
+        have : chans.all (fun ch => covers wk ch k) = true := List.all_eq_true.mpr h
+        rw [ha] at this; cases this
+    · exact absurd trivial h2
+    · exact absurd trivial h1
+    · constructor
+      · intro _; exact List.all_eq_true.mp ha
+      · intro _; rfl
+  · have hex : exclK (interR wk chans) k = false :=
+      bool_false_of_not (fun h => hm (mem_mentioned.mpr (.inl (exclK_interR_sub h))))
+    have hexk : exclK (chans.flatMap id) k = false :=
+      bool_false_of_not (fun h => hm (mem_mentioned.mpr (.inl h)))
+    rw [covers_iff, noK_interR, hex]
+    simp only [and_self, and_true]
+    rw [hasK_interR, hasK_interR]
+    simp only [hexk, hwk, true_and, or_self]
+    constructor
+    · intro h ch hch
+      apply (covers_unmentioned (not_mentioned_sub hm hch)).mpr
+      rcases h with ⟨_, h⟩ | ⟨_, h⟩
+      · exact h ch hch
+      · exact .inr (h ch hch)
+    · intro h
+      have h' : ∀ ch ∈ chans, hasK ch k = true ∨ hasK ch wk = true :=
+        fun ch hch => (covers_unmentioned (not_mentioned_sub hm hch)).mp (h ch hch)
+      by_cases hex1 : ∃ ch ∈ chans, hasK ch k = true
+      · exact .inl ⟨hex1, h'⟩
+      · right
+        have hall : ∀ ch ∈ chans, hasK ch wk = true := by
+          intro ch hch
+          rcases h' ch hch with h1 | h1
+          · exact absurd ⟨ch, hch, h1⟩ hex1
+          · exact h1
+        obtain ⟨ch0, hch0⟩ := List.exists_mem_of_ne_nil chans hne
+        exact ⟨⟨ch0, hch0, hall ch0 hch0⟩, hall⟩
+
 end
 end OpenFGAVerif.ListUsers
